@@ -44,7 +44,7 @@ PROCS = 16
 ALL_PLACEMENTS = ["modfunc", "method", "nmethod", "closure", "cmethod", "method_cd", "nmethod_cd"]
 ALL_HINTS = ["N", "list", "opt", "dict", "tuple", "Self"]
 SWITCHES = ["GlobalFirst", "FakeFallback", "FrameByCode", "SharedProxy", "CacheFailure"]
-V0230 = {"GlobalFirst": True, "FakeFallback": True, "FrameByCode": True, "SharedProxy": True, "CacheFailure": False}
+V0230 = {"GlobalFirst": True, "FakeFallback": True, "FrameByCode": True, "SharedProxy": False, "CacheFailure": False}
 INVARIANTS = ["UsableOnceDefined", "VerdictAsEvaluated", "UnresolvableRaises", "UnneededEither", "FormsAgree",
               "EvaluatedIsReference", "NoFailureCached"]
 FORMS = ["ev", "str", "inner", "post"]
